@@ -255,7 +255,6 @@ func c39body(c c39cfg) func(x *vsched.Exec) {
 	}
 }
 
-
 // c39slow: two Gets (keys k and k2) start together on client 0, so that both run the client's first keepalive; the
 // loader of k takes 2.5 x ClientTTL; client 1 asks for k after 1.6 x ClientTTL. The holder is alive all the time, so
 // the loader of k must run once and both clients must return its value.
